@@ -211,13 +211,11 @@ def run(tier, rep):
             # the boundary between two statements: drop the last terminator
             # of the first one
             items.append((x.lex + y.lex, lays2, (xt[-1],)))
-    for d in ([2] if tier == 'quick' else [2, 3]):
-        for kind in ('S', 'E'):
-            for b in G.chains(d, kind):
-                lex = b.lex if kind == 'S' else G.as_statement(b).lex
-                items.append((lex, lays2 if d == 2 else quickl,
-                              'singles' if tier == 'quick' or d == 3
-                              else 'all'))
+    for lex in G.chain_programs(2):
+        items.append((lex, lays2, 'singles' if tier == 'quick' else 'all'))
+    if tier != 'quick':
+        for lex in G.chain_programs(3, G.CORE_FORMS):
+            items.append((lex, quickl, 'singles'))
 
     def work(chunk, idx):
         acc = Acc()
